@@ -384,22 +384,24 @@ TIMER = "timer::timer::verif_timer::proofs"
 
 def c15_prop():
     quick = [
-        H(TIMER, "step_c15_poll", "step", est_s=200, bounds="E-STEP timer: ANY heap-ordered tree over the registered subset of 4 timer futures, deadlines and clock full u64, poll(A|B)"),
-        H(TIMER, "step_c15_drop", "step", est_s=200, bounds="E-STEP timer: same pre-state, drop of any future (heap removal)"),
-        H(TIMER, "step_c15_check_k3", "step", est_s=300, est_gb=3, timeout=900, bounds="E-STEP timer: ANY heap over the registered subset of 3 futures, check_expirations() + next_expiration()"),
+        H(TIMER, "step_c15_poll", "step", est_s=100, est_gb=2, bounds="E-STEP timer: ANY heap-ordered tree over the registered subset of 4 timer futures, deadlines and clock full u64, poll(A|B)"),
+        H(TIMER, "step_c15_drop", "step", est_s=300, est_gb=3, timeout=900, bounds="E-STEP timer: same pre-state, drop of any future (heap removal)"),
+        H(TIMER, "step_c15_check2", "step", est_s=300, est_gb=3.5, timeout=900,
+          bounds="E-STEP check_expirations over 2 timer futures (registered or not, deadlines and clock full u64, both heap shapes, wakers A|B): "
+                 "exactly the due ones woken once through the latest waker, in deadline order; next_expiration() afterwards"),
         H(TIMER, "delay_full_range", "hold", replay=("timer_delay", 0), mask=P(15), est_s=60,
           bounds="delay(d) = deadline(now + d) saturating: Duration (secs u64, nanos < 1e9) and clock full range"),
-        H(TIMER, "hist_c15_n4", "hold", replay=("timer_hist_noop", 0), mask=P(15), est_s=300, est_gb=3, timeout=900,
-          bounds="E-HIST timer: K=3 slots (re-creatable), deadlines 0..3, clock advances 1|2, N=4 operations, 11-way alphabet"),
-        H(TIMER, "witness_order_n4", "witness", replay=("timer_hist_noop", 0), mask=PALL, witness_bit=1, est_s=300, est_gb=4, timeout=900,
-          bounds="witness twin: one check_expirations expires two timers with different deadlines"),
+        H(TIMER, "hist_c15_k3_drop_a4", "hold", replay=("timer_hist_noop", 4 | (1 << 11)), mask=P(15), est_s=250, est_gb=3, timeout=900,
+          bounds="E-HIST timer: K=3 slots (re-creatable), deadlines 0..3, 4 operations of {poll A|B, drop, advance clock 1|2}; "
+                 "completion never early, next_expiration() after every operation (no check_expirations in this alphabet)"),
+        H(TIMER, "witness_drop_k3_a4", "witness", replay=("timer_hist_noop", 4 | (1 << 11)), mask=PALL, witness_bit=4, est_s=300, est_gb=4, timeout=900,
+          bounds="witness twin: a registered timer is dropped while another stays registered"),
     ]
     thorough = quick + [
-        H(TIMER, "step_c15_check", "step", est_s=1500, est_gb=6, timeout=3300, bounds="E-STEP timer K=4, check_expirations()"),
-        H(TIMER, "hist_c15_n5", "hold", replay=("timer_hist_noop", 0), mask=P(15), est_s=1500, est_gb=4, timeout=3300, bounds="E-HIST timer N=5"),
-        H(TIMER, "hist_c15_n6", "hold", replay=("timer_hist_noop", 0), mask=P(15), est_s=900, timeout=3000, bounds="E-HIST timer N=6"),
-        H(TIMER, "hist_c15_n5_check", "hold", replay=("timer_hist_check", 0), mask=P(15), est_s=600, timeout=3000, bounds="E-HIST timer N=5, MutexType=CheckLock"),
-        H(TIMER, "hist_c15_n7", "hold", replay=("timer_hist_noop", 0), mask=P(15), est_s=3000, timeout=3400, bonus=True, bounds="E-HIST timer N=7 (bonus)"),
+        H(TIMER, "hist_c15_k3_drop_a5", "hold", replay=("timer_hist_noop", 5 | (1 << 11)), mask=P(15), est_s=900, est_gb=4, timeout=3300, bounds="E-HIST timer, 5 operations, no check"),
+        H(TIMER, "step_c15_check_k3", "step", est_s=3000, est_gb=8, timeout=3400, bonus=True, bounds="E-STEP check_expirations over ANY heap of 3 registered futures (bonus: did not finish in 15 min in probes)"),
+        H(TIMER, "hist_c15_k2_chk_a3b1", "hold", replay=("timer_hist_noop", 3 | (1 << 4) | (2 << 8) | (1 << 10)), mask=P(15), est_s=3000, est_gb=20, timeout=3400, mem_gb=40, bonus=True,
+          bounds="E-HIST timer K=2 with check_expirations (bonus: ran out of memory at 13 GB in probes)"),
     ]
     return {"quick": quick, "thorough": thorough,
             "functions": ["TimerState::try_wait", "TimerState::remove_waiter", "TimerState::next_expiration", "TimerState::check_expirations",
@@ -407,8 +409,8 @@ def c15_prop():
                           "<LocalTimerFuture as Drop>::drop", "PairingHeap::insert", "PairingHeap::remove", "PairingHeap::peek_min",
                           "merge_children", "meld", "add_child", "utils::update_waker_ref", "Duration::as_millis"],
             "instantiations": ["GenericTimerService<NoopLock> (CheckLock in thorough), harness Clock over a static AtomicU64"],
-            "bounds": {"quick": {"K_step": 4, "K_hist": 3, "N_ops": 5, "deadlines_hist": "0..3", "deadlines_step": "full u64"},
-                       "thorough": {"N_ops": 6, "N_ops_bonus": 7}},
+            "bounds": {"quick": {"K_step": "4 (poll, drop), 2 (check_expirations)", "K_hist": 3, "N_ops": 4, "deadlines_hist": "0..3", "deadlines_step": "full u64"},
+                       "thorough": {"N_ops": 5}},
             "assumptions": ["the clock is a harness Clock returning the script-controlled monotone value; StdClock (wall clock) is not used",
                             "the Timer (Send) facade is a pure wrapper of LocalTimerFuture; only the LocalTimer trait is driven"]}
 
@@ -496,7 +498,7 @@ def c01_prop():
         H(STATE, "step_c01", "step", est_s=40, bounds="E-STEP state-broadcast K=3, ids full u64", **full),
         H(TIMER, "step_c01_poll", "step", est_s=150, est_gb=2.5, bounds="E-STEP timer K=4: heap = exactly the live registered futures (structural validator), poll", **full),
         H(TIMER, "step_c01_drop", "step", est_s=400, est_gb=3, timeout=900, bounds="E-STEP timer K=4, drop (heap removal from ANY tree shape)", **full),
-        H(TIMER, "step_c01_check_k3", "step", est_s=500, est_gb=3, timeout=900, bounds="E-STEP timer K=3, check_expirations", **full),
+        H(TIMER, "step_c01_check2", "step", est_s=400, est_gb=4, timeout=900, bounds="E-STEP check_expirations over 2 timer futures: expired ones unlinked, pending ones linked", **full),
     ]
     for cap in (0, 1, 2):
         for cn in ("ps", "pr", "dc", "tc"):
@@ -516,14 +518,14 @@ def c01_prop():
         H(EVENT, "hist_c01_n5_check", "hold", replay=("event_hist_check", 2), mask=P(1), est_s=200, bounds="E-HIST event N=5, CheckLock, all default checks", **full),
         H(ONESHOT, "hist_c01_n5", "hold", replay=("oneshot_hist_noop", 0), mask=P(1), est_s=200, bounds="E-HIST oneshot N=5, all default checks", **full),
         H(STATE, "hist_c01_n5", "hold", replay=("state_hist_noop", 0), mask=P(1), est_s=300, bounds="E-HIST state-broadcast N=5, all default checks", **full),
-        H(TIMER, "hist_c01_n4", "hold", replay=("timer_hist_noop", 0), mask=P(1), est_s=500, est_gb=4, timeout=900, bounds="E-HIST timer N=4, all default checks", **full),
+        H(TIMER, "hist_c01_k3_drop_a4", "hold", replay=("timer_hist_noop", 4 | (1 << 11)), mask=P(1), est_s=300, est_gb=3, timeout=900, bounds="E-HIST timer 4 operations {poll, drop, advance}: dropped futures never woken, no panic"),
     ]
     thorough = quick + [
         H(MUTEX, "hist_c01_n6_check", "hold", replay=("mutex_hist_check", 2), mask=P(1), est_s=900, timeout=3000, bounds="E-HIST mutex N=6 CheckLock", **full),
         H(SEM, "hist_c01_x_p2_n5_check", "hold", replay=("sem_hist_check", sem_cfg(2, 2)), mask=P(1), est_s=1500, timeout=3300, est_gb=4, bounds="E-HIST semaphore N=5 CheckLock", **full),
         H(ONESHOT_BC, "hist_c01_n5_check", "hold", replay=("oneshot_bc_hist_check", 0), mask=P(1), est_s=600, timeout=3000, bounds="E-HIST oneshot-broadcast N=5 CheckLock", **full),
         H(STATE, "hist_c01_n5_check", "hold", replay=("state_hist_check", 0), mask=P(1), est_s=900, timeout=3000, bounds="E-HIST state-broadcast N=5 CheckLock", **full),
-        H(TIMER, "hist_c01_n5_check", "hold", replay=("timer_hist_check", 0), mask=P(1), est_s=1500, timeout=3300, est_gb=4, bounds="E-HIST timer N=5 CheckLock", **full),
+        H(TIMER, "hist_c01_k3_drop_a5", "hold", replay=("timer_hist_noop", 5 | (1 << 11)), mask=P(1), est_s=1500, timeout=3300, est_gb=4, bounds="E-HIST timer 5 operations"),
         H(MPMC, "step_c01_c1_any_check", "step", est_s=300, timeout=3000, bounds="E-STEP mpmc capacity 1, all classes, CheckLock", **full),
         mpmc_hist("c01", 1, 1, "sr", 0, 4, tier_quick=False),
         mpmc_hist("c01", 1, 0, "cl", 3, 5, tier_quick=False),
@@ -562,7 +564,7 @@ def c17_prop():
         H(EVENT, "hist_c17_n5", "hold", replay=("event_hist_noop", 2), mask=P(17), est_s=80, bounds="E-HIST event N=5"),
         H(ONESHOT, "hist_c17_n5", "hold", replay=("oneshot_hist_noop", 0), mask=P(17), est_s=80, bounds="E-HIST oneshot N=5"),
         H(STATE, "hist_c17_n5", "hold", replay=("state_hist_noop", 0), mask=P(17), est_s=150, bounds="E-HIST state-broadcast N=5"),
-        H(TIMER, "hist_c17_n4", "hold", replay=("timer_hist_noop", 0), mask=P(17), est_s=250, est_gb=3, timeout=900, bounds="E-HIST timer N=4"),
+        H(TIMER, "hist_c17_k3_drop_a4", "hold", replay=("timer_hist_noop", 4 | (1 << 11)), mask=P(17), est_s=250, est_gb=3, timeout=900, bounds="E-HIST timer 4 operations {poll, drop, advance}"),
         H(MPMC, "hist_c17_c1_st_p1_n5", "hold", replay=("mpmc_hist_noop", mpmc_cfg(1, "st", 1, 1)), mask=P(17), est_s=300, est_gb=4,
           bounds="E-HIST mpmc capacity 1 with a ChannelStream: items = what successive receives return, None once closed and drained, terminated from then on"),
         H(MPMC, "hist_c17_c0_st_p0_n4", "hold", replay=("mpmc_hist_noop", mpmc_cfg(0, "st", 0, 1)), mask=P(17), est_s=300, est_gb=4,
@@ -570,10 +572,8 @@ def c17_prop():
         mpmc_hist("c17", 17, 0, "ca", 5, 5),
         mpmc_hist("c17", 17, 1, "ca", 3, 5),
         H(MPMC, "step_c17_c2_dc", "step", est_s=60, est_gb=1.5, bounds="E-STEP mpmc capacity 2 drop/cancel: cancel() terminates the send future in every state"),
-        H(MPMC, "witness_stream_c1", "witness", replay=("mpmc_hist_noop", 1 | (1 << 4) | (1 << 8) | ((1 | 2 | 128) << 12)), mask=PALL, witness_bit=16, est_s=300, est_gb=4,
-          bounds="witness twin: the stream yields an item and later None"),
-        H(LIFE, "life_c17_state_n4", "hold", replay=("life_state", 0), mask=P(17), est_s=400, est_gb=8, timeout=900,
-          bounds="shared state-broadcast receive future: is_terminated() over handle clone/drop histories"),
+        H(LIFE, "life_c17_state_n3", "hold", replay=("life_state", 0), mask=P(17), est_s=300, est_gb=8, timeout=900,
+          bounds="shared state-broadcast receive future: is_terminated() over handle clone/drop histories, 3 operations"),
     ]
     thorough = quick + [
         H(MUTEX, "hist_c17_n7", "hold", replay=("mutex_hist_noop", 2), mask=P(17), est_s=900, timeout=3000, bounds="E-HIST mutex N=7"),
@@ -601,7 +601,7 @@ def c18_prop():
         H(ONESHOT, "hist_c18_n5", "hold", replay=("oneshot_hist_noop", 0), mask=P(18), est_s=100, bounds="E-HIST oneshot N=5", **st),
         H(ONESHOT_BC, "hist_c18_n5", "hold", replay=("oneshot_bc_hist_noop", 0), mask=P(18), est_s=100, bounds="E-HIST oneshot-broadcast N=5", **st),
         H(STATE, "hist_c18_n5", "hold", replay=("state_hist_noop", 0), mask=P(18), est_s=200, bounds="E-HIST state-broadcast N=5", **st),
-        H(TIMER, "hist_c18_n4", "hold", replay=("timer_hist_noop", 0), mask=P(18), est_s=300, est_gb=3, timeout=900, bounds="E-HIST timer N=4", **st),
+        H(TIMER, "hist_c18_stub_k3_drop_a4", "hold", replay=("timer_hist_noop", 4 | (1 << 11)), mask=P(18), est_s=300, est_gb=3, timeout=900, bounds="E-HIST timer 4 operations {poll, drop, advance}", **st),
         H(MPMC, "hist_c18_c1_sr_p5_n5", "hold", replay=("mpmc_hist_noop", mpmc_cfg(1, "sr", 5)), mask=P(18), est_s=300, est_gb=4, bounds="E-HIST mpmc capacity 1", **st),
         H(MPMC, "hist_c18_c0_cl_p3_n5", "hold", replay=("mpmc_hist_noop", mpmc_cfg(0, "cl", 3)), mask=P(18), est_s=300, est_gb=4, bounds="E-HIST mpmc capacity 0", **st),
         H(MPMC, "hist_c18_c2_tr_p0_n4", "hold", replay=("mpmc_hist_noop", mpmc_cfg(2, "tr", 0)), mask=P(18), est_s=300, est_gb=4, bounds="E-HIST mpmc capacity 2", **st),
@@ -822,9 +822,14 @@ for _n, _k in (("oneshot_hist_noop", "oneshot"), ("oneshot_hist_check", "oneshot
     DECODERS[_n] = decode_recv(_k)
 def decode_timer(cfg, script):
     it = iter(script)
+    n1, n2 = cfg & 15, (cfg >> 4) & 15
     out = ["clock=0; timer futures #0,#1,#2 with deadlines %s" % [next(it, 0), next(it, 0), next(it, 0)]]
     alive = [True] * 3
-    for op in it:
+
+    def cheap():
+        op = next(it, None)
+        if op is None:
+            return False
         if op < 6:
             i = op // 2
             if not alive[i]:
@@ -836,10 +841,24 @@ def decode_timer(cfg, script):
             alive[op - 6] = False
         elif op == 9:
             out.append("advance clock by %d" % (1 + next(it, 0)))
-        elif op == 10:
-            out.append("check_expirations()")
         else:
             out.append("<byte %d>" % op)
+        return True
+
+    def check():
+        f = next(it, None)
+        if f is None:
+            return False
+        if f & 1:
+            out.append("check_expirations()")
+        return True
+
+    for phase_len in (n1, n2):
+        for _ in range(phase_len):
+            if not cheap():
+                return out
+        if not check():
+            return out
     return out
 
 
